@@ -23,9 +23,43 @@ func (p *Program) ruleSegmentForwarders(c *Check) {
 	}
 	onOf := func(arg *Term) *Term { return tField(tCall(rc, tRecv(), arg), on) }
 	p.expectForward(c, "E12.seg", p.Method("geometry", "Segment", "ContainsPoint"), "a point is on a segment iff the ray cast reports 'on'", onOf(tParam(0)))
-	p.expectForward(c, "E12.seg", p.Method("geometry", "Segment", "ContainsSegment"), "a segment contains another iff both of its endpoints are on it",
-		tOp("&&", onOf(tField(tParam(0), segA)), onOf(tField(tParam(0), segB))),
-		tOp("&&", onOf(tField(tParam(0), segB)), onOf(tField(tParam(0), segA))))
+	_ = segA
+	_ = segB
+	cs := p.Method("geometry", "Segment", "ContainsSegment")
+	if cs == nil {
+		c.Undecided("E12.seg", "anchor:geometry.Segment.ContainsSegment", "", "not found")
+	} else {
+		before := len(c.Obs)
+		p.runE8(c, &e8row{id: "geometry.Segment.ContainsSegment", fn: cs, opaque: map[*types.Func]bool{rc: true},
+			what: "a segment contains another iff the ray cast reports 'on' for both of its endpoints (and for nothing else)",
+			spec: func(a *e8assign, n *e8names, out *e8out) string {
+				got, ok := retBool(out)
+				if !ok {
+					return "no boolean result"
+				}
+				var onA, onB string
+				for _, b := range n.bools {
+					if strings.HasPrefix(b, "Raycast(") && strings.HasSuffix(b, ".On") {
+						if strings.Contains(b, "p0.A") {
+							onA = b
+						}
+						if strings.Contains(b, "p0.B") {
+							onB = b
+						}
+					}
+				}
+				if onA == "" || onB == "" {
+					return "the ray cast is not consulted for both endpoints of the other segment"
+				}
+				if want := a.B(onA) && a.B(onB); got != want {
+					return fmt.Sprintf("returns %v when on(A)=%v and on(B)=%v", got, a.B(onA), a.B(onB))
+				}
+				return ""
+			}})
+		for _, o := range c.Obs[before:] {
+			o.Rule = "E12.seg"
+		}
+	}
 	ez := p.Func("geometry", "eqZero")
 	if ez != nil {
 		p.runE8(c, &e8row{id: "geometry.eqZero", fn: ez, what: "true exactly for zero (neither negative nor positive)", atoms: []string{"0"},
